@@ -99,3 +99,16 @@ Example C14_example :
   unmark 200 (title_markup [(0%Z, s2l "A & "); ((-1)%Z, s2l "<old>"); (1%Z, s2l "new ""q""")]) =
   Some (s2l "A &amp; &lt;old&gt;", s2l "A &amp; new &quot;q&quot;").
 Proof. vm_compute. reflexivity. Qed.
+
+(* the titles that the title diff compares: the first <title> of the page outside embedded SVG / MathML (shared with C10,
+   whose view is titled with the new page's title): the head's title wins, a graphic in the body contributes none *)
+Theorem C14_page_title_head_first : forall d t, first_title_in (d_head d) = Some t -> doc_title d = t.
+Proof. exact doc_title_head_first. Qed.
+
+Theorem C14_page_title_ignores_graphics : forall d name a v cs rest,
+  first_title_in (d_head d) = None -> d_body d = SEl name a v cs :: rest -> is_foreign name = true ->
+  doc_title d = match first_title_in rest with Some t => t | None => [] end.
+Proof. exact doc_title_body_graphics_ignored. Qed.
+
+Theorem C14_page_title_of_a_graphic_is_none : forall name a v cs, is_foreign name = true -> first_title (SEl name a v cs) = None.
+Proof. exact first_title_foreign. Qed.
